@@ -318,4 +318,23 @@ theorem doPUB_char (hc : HConf) (b : Broker) (rq : Request) : PubEndpoint hc b r
             simp [PubTooBig, PubBodyOk, DeferBad, deferNs, QueryBad, arg, hpd, h1, h2, h3, h3', hq, ht, hv, hd, resp] <;>
             first | exact hgood | (simpa using hgood) | skip
 
+/-! ## From the handler to `handle` (router + TLS gate) -/
+
+/-- The request is for method `m`, path `p`. -/
+def At (rq : Request) (m p : String) : Prop := rq.method = ascii m ∧ rq.path = ascii p
+
+theorem handle_at (hc : HConf) (healthy : Bool) (b : Broker) (rq : Request) (m p : String) (h : Handler)
+    (htls : hc.tlsRefuse = false) (hat : At rq m p) (hr : route (ascii m) (ascii p) = .handler h) :
+    handle hc healthy b rq = runHandler hc healthy b rq h := by
+  unfold handle
+  rw [hat.1, hat.2, hr]
+  simp [htls]
+
+/-- `/stats`: 400 exactly when the query does not parse. -/
+theorem doStats_char (b : Broker) (rq : Request) :
+    (doStats b rq = (⟨.s400, "INVALID_REQUEST"⟩, b) ↔ QueryBad rq) ∧
+    (doStats b rq = (⟨.s200, "*"⟩, b) ↔ ¬ QueryBad rq) := by
+  unfold doStats QueryBad
+  cases hq : parseQuery rq.rawQuery <;> simp [resp]
+
 end Nsq.Proofs.HttpChar
